@@ -53,6 +53,7 @@ type Contract struct {
 	FreshResult bool
 	Pure        bool
 	Trusted     bool
+	TrustedPosts bool
 	NoBody      bool
 	Implements  []string
 	Defines     []*Define
@@ -447,6 +448,12 @@ func (C *Contracts) loadContractFile(path string, pkgPath string, isGo bool) {
 		case "trusted":
 			if cur != nil {
 				cur.Trusted = true
+			}
+		case "trusted_posts":
+			// the postconditions are assumed (listed as an assumption); the body is still executed for the
+			// zero-annotation safety obligations, frames and callee preconditions
+			if cur != nil {
+				cur.TrustedPosts = true
 			}
 		case "results":
 			if cur != nil {
